@@ -9,9 +9,9 @@
 (*   sib    a set of sibling property names of one object (MakeSibs):      *)
 (*          from a name n, every name m of the pair universe that the      *)
 (*          model maps to the same attribute and that is a MINIMAL such    *)
-(*          pair (no common first/last atom can be dropped), as            *)
-(*          properties [n, m], as property n + required m, and both;       *)
-(*          plus all pairs of names of length <= 1;                        *)
+(*          pair (not decomposable into shorter colliding/equal parts),    *)
+(*          as properties [n, m], as property n + required m, and both;    *)
+(*          plus all pairs of names of length <= 1, plus the seeds;        *)
 (*   title  an object title = sequence of title tokens (AppendTok) put on  *)
 (*          an object that sits next to a property whose schema makes the  *)
 (*          generated module use a given library name (SetUse);            *)
@@ -34,6 +34,10 @@ CONSTANTS MaxLen,        \* names: atoms per name (over one representative atom 
           UseLen,        \* titles of up to UseLen tokens are combined with every library name
           MaxSlots       \* documents: objects besides the root
 
+(* The variables are called v...: an operator PARAMETER that has the name   *)
+(* of a variable (NameClasses uses name, slots, ...) makes TLC treat every  *)
+(* constant definition built on that operator as state-dependent, and the  *)
+(* tables below would be recomputed in every state.                        *)
 VARIABLES vName, vSib, vTitle, vUse, vRoot, vSlots
 vars == <<vName, vSib, vTitle, vUse, vRoot, vSlots>>
 
@@ -109,8 +113,8 @@ TitleAlphabet ==
 
 (* "A" and "a" format to the same class name; "A_1" is what the de-duplication *)
 (* suffix looks like (the formatter drops the "_1": it must never survive)    *)
-SlotTitles == {<<W("A")>>, <<W("a")>>, <<W("A"), US, At("dg", "1")>>}
-              \cup (IF Rich THEN {<<W("B")>>, <<W("A"), SP, At("dg", "1")>>} ELSE {})
+BaseTitles == {<<W("A")>>, <<W("a")>>, <<W("A"), US, At("dg", "1")>>}
+SlotTitles == BaseTitles \cup (IF Rich THEN {<<W("B")>>, <<W("A"), SP, At("dg", "1")>>} ELSE {})
 RootTitles == {<<W("T")>>, <<W("A")>>}
 OuterTitle == <<W("Outer")>>
 
@@ -151,7 +155,7 @@ MakeSibs ==
   /\ UNCHANGED <<vName, vTitle, vUse, vRoot, vSlots>>
 
 AppendTok ==
-  /\ InTitles /\ Len(vTitle) < MaxTitle
+  /\ InTitles /\ vUse = "none" /\ Len(vTitle) < MaxTitle
   /\ \E a \in TitleAlphabet : vTitle' = Append(vTitle, a)
   /\ UNCHANGED <<vName, vSib, vUse, vRoot, vSlots>>
 SetUse ==
@@ -166,7 +170,8 @@ AddSlot ==
   /\ \E sl \in SlotChoices :
         /\ sl.pos = "addl" => \A j \in 1..Len(vSlots) : vSlots[j].pos # "addl"
         /\ vSlots = <<>> => sl.shape = 1          \* the two shapes are symmetric
-        /\ Len(vSlots) = 2 => sl.title = <<W("A")>>   \* a third object always shares the title
+        /\ Len(vSlots) = 2 =>                     \* a third object always shares the title
+              sl.title = <<W("A")>> /\ \A j \in 1..2 : vSlots[j].title \in BaseTitles
         /\ vSlots' = Append(vSlots, sl)
   /\ UNCHANGED <<vName, vSib, vTitle, vUse>>
 
